@@ -16,7 +16,9 @@ RULE = (
     "(nor a harness global) must be 'hy' or start with '_hy_'. Dynamic oracle: collections/calls/operators ALL of whose arguments "
     "are statement-lifted constructs (if/try/with/and/or/let/lfor/while...), so that every temporary is live at once, must give the "
     "reference interpreter's value, and sentinel user variables assigned before the construct must hold their values after it. "
-    "Non-trivial = the compiled module contains >= 2 distinct _hy_ temporaries; distinct by source"
+    "The all-lifted construct is also placed in the else position of an if and in a later clause of a cond (chained ifs). Third leg: "
+    "Engine-C scoping programs (lets that re-bind a name in one list, closures, comprehensions): same static oracle, behaviour "
+    "compared with vf/scopes.py's reference. Non-trivial = the compiled module contains >= 2 distinct _hy_ temporaries; distinct by source"
 )
 ASSUMPTIONS = ["reference interpreter vf/progs.py for the dynamic part", "hy.mangle maps program names to their identifiers (C32/C34 check that separately)"]
 
@@ -53,9 +55,43 @@ def identifiers(tree):
     return out
 
 
+def check_scopes(case):
+    """Engine C programs (lets with re-binding, closures, comprehensions, classes): static name check + behaviour"""
+    import re
+    import types
+
+    import hy
+    import hy.compiler
+    from vf import scopes as S
+
+    prog = case["scopes"]
+    try:
+        if S.comp_conflict(prog) or S.reference(prog)[0] != "ok":
+            return None
+        src = S.render(prog)
+    except (KeyError, IndexError, TypeError, ValueError):
+        return None
+    mod = types.ModuleType("vfprog12s")
+    try:
+        tree = hy.compiler.hy_compile(hy.read_many(src), mod, filename="<c12>", source=src)
+    except SyntaxError:
+        return None
+    own = re.compile(r"^(x|y|z|w|[fgCma]\d+|MAIN|REC|self|range|hy)$")
+    for kind, ident in sorted(identifiers(tree)):
+        if own.match(ident) or ident.startswith("_hy_"):
+            continue
+        return ("foreign-name:%s:%s" % (kind, ident), dict(source=src, identifier=ident, kind=kind, python=ast.unparse(tree)[:600]))
+    r = S.compare(prog)
+    if r is not None and not r[0].startswith("skip"):
+        return ("dynamic:scoping-program:" + r[0].split(":")[0], r[1])
+    return None
+
+
 def check_case(case):
     import hy
 
+    if "scopes" in case:
+        return check_scopes(case)
     prog = case["prog"]
     if not P.valid(prog):
         return None
@@ -89,6 +125,19 @@ def temporaries(src):
     return {i for k, i in identifiers(tree) if i.startswith("_hy_")}
 
 
+def temporaries_of_source(src):
+    import types
+
+    import hy
+    import hy.compiler
+
+    try:
+        tree = hy.compiler.hy_compile(hy.read_many(src), types.ModuleType("vfprog12t"), filename="<c12>", source=src)
+    except SyntaxError:
+        return set()
+    return {i for k, i in identifiers(tree) if i.startswith("_hy_")}
+
+
 def all_lifted_program(budget, depth):
     """Strategy: sentinels; a collection/call/operator whose every argument is statement-lifted; sentinels read back."""
     from hypothesis import strategies as st
@@ -105,6 +154,7 @@ def all_lifted_program(budget, depth):
         env.no_write = set(env.vars)
         n = draw(st.integers(2, 5))
         kind = draw(st.sampled_from(["list", "tuple", "call", "op", "dict"]))
+        if_heavy = draw(st.integers(0, 2)) == 0  # every operand a statement-producing `if`: their result temporaries are all live at once
         wants = ["int"] * n if kind == "op" else ["any"] * n
         nodes, info = g.par(wants, depth, env)
         out = []
@@ -112,7 +162,7 @@ def all_lifted_program(budget, depth):
             if nd[0] in ("lit", "var", "eff", "list"):
                 a, b = next(g.ids), next(g.ids)
                 v = draw(st.integers(-2, 5))
-                nd = draw(st.sampled_from([
+                nd = ["if", ["eff", a, draw(st.integers(0, 1))], ["do", [["eff", b, None], ["lit", v]]], ["lit", v + 10]] if if_heavy else draw(st.sampled_from([
                     ["if", ["eff", a, 1], ["do", [["eff", b, None], ["lit", v]]], ["lit", 0]],
                     ["try", [["eff", a, v]], [], None, [["eff", b, None]]],
                     ["or", [["eff", a, 0], ["do", [["eff", b, None], ["lit", v]]]]],
@@ -132,6 +182,15 @@ def all_lifted_program(budget, depth):
         else:
             ps = ["q%d" % i for i in range(n)]
             node = ["call", ["fn", ps, [["list", [["var", p] for p in ps][:3] + [["lit", 0]] * max(0, 3 - n)]]], out]
+        # the construct also in the else position of an `if` / a later clause of a `cond` (where Hy chains ifs with a shared temporary)
+        place = draw(st.sampled_from(["plain", "plain", "else-of-if", "second-cond-clause", "nested-else"]))
+        c1, c2 = next(g.ids), next(g.ids)
+        if place == "else-of-if":
+            node = ["if", ["eff", c1, 0], ["lit", -1], ["if", ["eff", c2, 1], node, ["lit", -2]]]
+        elif place == "second-cond-clause":
+            node = ["cond", [[["eff", c1, 0], ["lit", -1]], [["eff", c2, 1], node]]]
+        elif place == "nested-else":
+            node = ["if", ["eff", c1, 0], ["lit", -1], ["if", ["eff", c2, 0], ["lit", -2], node]]
         tail = ["list", [["var", "s%d" % i] for i in range(len(sent))] + [["lit", 0]] * (3 - len(sent))]
         return sent + [["setv", [["r", node]]], ["tuple", [["var", "r"], tail]]]
 
@@ -165,6 +224,21 @@ def shard(ctx):
 
     ctx.hyp(st.tuples(G.program(budget=40 if ctx.quick else 70, depth=4 if ctx.quick else 5), modes, names), one, ctx.per_shard(1200, 80000), "c01-programs")
     ctx.hyp(st.tuples(all_lifted_program(30 if ctx.quick else 50, 2 if ctx.quick else 3), modes, names), one, ctx.per_shard(1200, 80000), "all-arguments-lifted")
+
+    from vf import scopes as S
+
+    def one_scopes(prog):
+        case = dict(scopes=prog)
+        r = check_case(case)
+        src = S.render(prog)
+        temps = temporaries_of_source(src)
+        f = S.features(prog)
+        ctx.case(key=src, nontrivial=len(temps) >= 2, cls=["scoping-program", "temporaries:%d" % min(len(temps), 6)] + (["let-rebinds-in-one-list"] if "let-rebinds-in-one-list" in f else []),
+                 sample=src.replace("\n", " ")[:300])
+        if r is not None:
+            ctx.fail(case, r[0], r[1])
+
+    ctx.hyp(S.program_strategy("let"), one_scopes, ctx.per_shard(1200, 60000), "scoping-programs")
 
 
 MATCHERS = {}
